@@ -1,13 +1,15 @@
 pub mod c01;
+pub mod c07;
 
 use crate::framework::Ctx;
 use serde_json::Value as J;
 
-pub const ALL: &[&str] = &["C01"];
+pub const ALL: &[&str] = &["C01", "C07"];
 
 pub fn run(ctx: &mut Ctx) {
 	match ctx.prop {
 		"C01" => c01::run(ctx),
+		"C07" => c07::run(ctx),
 		p => panic!("unknown property {p}"),
 	}
 }
@@ -15,6 +17,7 @@ pub fn run(ctx: &mut Ctx) {
 pub fn replay(prop: &str, family: &str, case: &J) -> Result<(), String> {
 	match prop {
 		"C01" => c01::replay(family, case),
+		"C07" => c07::replay(family, case),
 		p => Err(format!("unknown property {p}")),
 	}
 }
